@@ -82,8 +82,20 @@ fn main() {
     let mut per = Vec::new();
     let mut all_complete = true;
 
+    // every scenario is explored twice: with the hook-visible state as key (the count the stateright model reproduces), and
+    // with the digest of the object's Debug text added to the key (hidden fields split states), limited to 6x the states
+    let mut fine_states = 0usize;
+    let mut fine_truncated = 0usize;
     let sc0 = s0(run.tier.pick(5, 8));
     let e0 = explore(&run, &sc0, &mut sink);
+    {
+        let ef = explore_fine(&run, &sc0, &mut sink, e0.states * 6 + 1000);
+        fine_states += ef.states;
+        transitions += ef.transitions;
+        if !ef.complete && ef.depth < sc0.max_depth {
+            fine_truncated += 1;
+        }
+    }
     states += e0.states;
     transitions += e0.transitions;
     maxdepth = maxdepth.max(e0.depth);
@@ -106,6 +118,14 @@ fn main() {
             }
         }
         let e = explore(&run, &sc, &mut sink);
+        {
+            let ef = explore_fine(&run, &sc, &mut sink, e.states * 6 + 1000);
+            fine_states += ef.states;
+            transitions += ef.transitions;
+            if !ef.complete {
+                fine_truncated += 1;
+            }
+        }
         states += e.states;
         transitions += e.transitions;
         maxdepth = maxdepth.max(e.depth);
@@ -224,6 +244,8 @@ fn main() {
     cov.insert("transitions".into(), json!(transitions + st1 + st2));
     cov.insert("traces_validated_against_impl".into(), json!(transitions + st1 + st2));
     cov.insert("max_depth".into(), json!(maxdepth));
+    cov.insert("states_with_hidden_state_digest".into(), json!(fine_states));
+    cov.insert("hidden_state_explorations_cut_off_at_budget".into(), json!(fine_truncated));
     cov.insert("scenarios".into(), json!(per));
     if !cross.is_empty() {
         cov.insert("cross_check_stateright".into(), json!(cross));
